@@ -130,6 +130,7 @@ func (wd *World) runOp(op Op) {
 		if q == nil || s.Submitted {
 			return
 		}
+		s.Q = q.idx // the queue it actually went to (the index may have been taken modulo the queues bound so far)
 		c := r.begin(opAdd, q.idx, s.N)
 		s.AddInv = c.Inv
 		q.addsInvoked++
@@ -158,6 +159,7 @@ func (wd *World) runOp(op Op) {
 		c := r.begin(opAddAll, q.idx, -1)
 		c.Batch = op.A
 		for _, n := range op.Subs {
+			wd.subs[n].Q = q.idx
 			wd.subs[n].AddInv = c.Inv
 			q.addsInvoked++
 		}
@@ -414,7 +416,7 @@ func (wd *World) runOp(op Op) {
 			return
 		}
 		c := r.begin(opInject, q.idx, -1)
-		bad := [][]byte{[]byte("{\"id\":\"inj\",\"status\":\"Queued\",\"data\":{{"), []byte("\x00\xff garbage"), []byte("{\"id\":\"inj2\",\"status\":\"NoSuchStatus\",\"data\":1}"), []byte("{\"id\":\"inj3\",\"status\":\"Queued\",\"data\":\"not a number\"}")}
+		bad := [][]byte{[]byte("{\"id\":\"inj\",\"status\":\"Queued\",\"data\":{{"), []byte("\x00\xff garbage"), []byte("{\"id\":\"inj2\",\"status\":\"NoSuchStatus\",\"data\":1}"), []byte("{\"id\":\"inj3\",\"status\":\"Queued\",\"data\":\"not a number\"}"), []byte("{\"id\":\"inj4\",\"status\":\"Queued\",\"data\":424242}}")}
 		e := adEntry{Bad: 1, Sub: -1, Bytes: bad[op.A%len(bad)]}
 		q.ad.hb()
 		q.ad.inject(simrt.Choose(len(q.ad.pending)+1), e)
